@@ -1,20 +1,38 @@
 """C30 -- declaration and type-string errors are reported as cffi errors; the C
 type-string parser never crashes or reads outside its input.
 
-Engine E1 (bounded exhaustive enumeration), two halves:
+Engine E1 (bounded exhaustive enumeration), two halves.
 
-Python side (cparser.py / api.py): every sequence of <= 3 (thorough 4) tokens
-over a 50-token alphabet through FFI.typeof(); for FFI.cdef() every single-slot
-substitution / insertion / deletion of every token of the shared 47-cdef corpus
-and every sequence of <= 3 tokens inside four frames.  Oracle: the call returns
-or raises an exception whose type the statement allows.
+Python side (cparser.py / api.py):
+  * FFI.typeof(): every sequence of <= 3 (thorough 4) tokens over a 51-token
+    alphabet, plus every sequence of <= 2 (thorough 3) tokens inside the frames
+    `int [ ... ]` and `void ( ... )`;
+  * FFI.cdef(): every single-slot deletion / substitution / insertion of every
+    token of the shared 47-cdef corpus, and every token sequence inside
+    `struct fs { ... };`, `enum fe { ... };`, `#define FX ...`, `int fa[ ... ];`
+    (thorough: length <= 3 over the 51 tokens; quick: length <= 2 over the 51
+    tokens and length 3 over the 28 tokens that can occur in a field list or a
+    constant expression);
+  * a few structured families outside the token space: one token repeated
+    600/1300/6000 times, array lengths around every integer limit.
+  Oracle: the call returns or raises an exception whose type the statement
+  allows.  Every escaping exception is classified by (type, innermost frame in
+  the cffi package[, raising frame inside pycparser]).
 
-C side (parse_c_type.c / ffi_obj.c / realize_c_type.c): a stand-alone
-ASan+UBSan executable that #includes the tree's parse_c_type.c enumerates every
-sequence of <= 5 (thorough 6) symbols over a 36-symbol byte-class alphabet,
-each string in an exactly-sized heap block, each parse repeated with exactly-
-and one-too-small output arrays.  Strings are then realised through
-_cffi_backend.FFI.typeof() of an out-of-line module in crash-contained workers.
+C side (parse_c_type.c / ffi_obj.c / realize_c_type.c):
+  * a stand-alone ASan+UBSan executable that #includes the tree's
+    parse_c_type.c and commontypes.c enumerates every sequence of <= 5
+    (thorough 6) symbols over a 36-symbol alphabet (one byte per class the
+    tokenizer distinguishes + keywords), every sequence of <= 3 bytes over all
+    255 byte values, and (thorough) of <= 4 bytes over the 97 printable bytes;
+    input in an exactly-sized heap block; every parse repeated with an output
+    array of exactly the needed size and of one slot less;
+  * every symbol string of length <= 3 (thorough 4), every accepted string of
+    length <= 4 (thorough 5) and ~900 structured strings (non-ASCII, NUL, lone
+    surrogate, lengths around 500 / 1000 / 1200, array lengths around every
+    integer limit) go through typeof() of a compiled (out-of-line) FFI in
+    crash-contained workers; thorough repeats this with the ASan+UBSan build
+    of _cffi_backend preloaded into the interpreter.
 """
 import collections
 import ctypes
@@ -38,14 +56,15 @@ META = dict(
     engine="E1-enum", level="exploration",
     technique="bounded exhaustive enumeration of token sequences (Python parser) and of byte-class sequences (C parser "
               "under ASan/UBSan with exactly-sized buffers), exception-type contract as oracle",
-    text="Every sequence of <=3 (thorough 4) tokens over a 50-token C/cffi alphabet through FFI.typeof(); every "
+    text="Every sequence of <=3 (thorough 4) tokens over a 51-token C/cffi alphabet through FFI.typeof(); every "
          "single-token substitution, insertion and deletion of the 47-cdef corpus and every sequence of <=3 tokens inside "
-         "struct/enum/#define/array-length frames through FFI.cdef(): the call must return or raise CDefError, FFIError, "
-         "NotImplementedError, VerificationError or VerificationMissing.  Every sequence of <=5 (thorough 6) symbols over "
-         "36 byte classes/keywords through the tree's parse_c_type.c compiled stand-alone with ASan+UBSan, input and "
-         "output arrays in exactly-sized heap blocks (output bound straddled for every string); every string of <=3 "
-         "(thorough 4) symbols and every accepted string of <=4 (thorough 5) is realised by a compiled FFI's typeof() in "
-         "crash-contained workers: ctype, ffi.error, TypeError or ValueError, never a dead process.",
+         "struct/enum/#define/array-length frames through FFI.cdef() (quick: length 3 over 28 of the 51 tokens): the "
+         "call must return or raise CDefError, FFIError, NotImplementedError, VerificationError or VerificationMissing.  "
+         "Every sequence of <=5 (thorough 6) symbols over 36 byte classes/keywords, and of <=3 bytes over all 255 byte "
+         "values, through the tree's parse_c_type.c compiled stand-alone with ASan+UBSan, input and output arrays in "
+         "exactly-sized heap blocks (output bound straddled for every string); every string of <=3 (thorough 4) symbols "
+         "and every accepted string of <=4 (thorough 5) is realised by a compiled FFI's typeof() in crash-contained "
+         "workers: ctype, ffi.error, TypeError or ValueError, never a dead process.",
     note="allowed exception sets are copied from the statement; the stand-alone parser runs against a hand-written "
          "context (checked for consistency against the real backend on every realised string); ASan dedups reports per "
          "faulting PC, so one input per faulting instruction and process is recorded")
@@ -1069,10 +1088,8 @@ def replay(detail):
         sys.stdout.flush()
         import tempfile
         d = tempfile.mkdtemp(prefix="c30r-", dir=build.scratch())
-        src = os.path.join(d, "one.c")
-        # single-string driver: reuse the harness through its journal-free mode: job covering
-        # exactly this prefix is not expressible, so run the whole length class of this string
-        # restricted to its 2-symbol prefix by choosing njobs = NSYM*NSYM (or NSYM for length 1)
+        # the harness enumerates; restrict it to the strings sharing this one's 2-symbol prefix
+        # by choosing njobs = nsym*nsym (nsym for length 1) and the job number of that prefix
         L = len(seq)
         njobs = NS * NS if L >= 2 else NS
         job = seq[0] * NS + seq[1] if L >= 2 else seq[0]
